@@ -136,6 +136,11 @@ def bytesDelivered (id : Nat) (fs : List Frame) : Bytes := (payloadsOf id fs).fl
 structure Cfg where
   mp : Nat
   qlen : Nat
+  /-- what `Open` does on a mux that is already closed — MEASURED from the implementation by
+      the harness (a Write on such a connection fails with EOF iff it is handed out closed).
+      `false` = the pinned code: a fresh OPEN connection that nothing will ever close
+      (finding C11:open-after-close); `true` = the repaired code: the connection is closed. -/
+  lateClosed : Bool := false
 deriving Repr, DecidableEq
 
 /-- a `*conn` object -/
@@ -213,7 +218,7 @@ def step (s : MuxSt) : Ev → Option MuxSt
   | .openReserved => some s
   | .openNew id h =>
     if id ≠ 0 ∧ AList.lookup s.cmap id = none ∧ h = s.objs.length then
-      some { s with objs := s.objs ++ [{ id := id, base := countFor id s.seen }],
+      some { s with objs := s.objs ++ [{ id := id, base := countFor id s.seen, closed := s.cfg.lateClosed && s.closed }],
                     cmap := AList.insert s.cmap id h }
     else none
   | .openOld id h =>
